@@ -98,7 +98,11 @@ contract(CONN + '._receive_push_promise_frame', props=['C22', 'C20', 'C09', 'C06
         # a push is refused (RST_STREAM REFUSED_STREAM on the promised id, no event, no error) only when the parent
         # was reset by this endpoint, or the peer pushed on a stream it had itself already ended (leniency L2)
         ('refused-only-on-streams-we-reset', 'implies(%s, parent_reset_by_us or (exists and kp == K_RST))' % REFUSED, ['C20', 'C22', 'C06']),
-        ('refusal-creates-nothing', 'implies(%s, self.highest_inbound_stream_id == wm_in and all(k in old(self.streams) for k in self.streams))' % REFUSED, ['C20', 'C27']),
+        # C20: frames the peer already sent on the refused stream must later be treated as racing OUR reset, so the
+        # refusal is remembered (closed-stream memory, bounded) and the promised id counts as used; no stream object
+        # is registered for it (C27)
+        ('refused-push-remembered-as-reset-by-us', 'implies((%s) and self.config.client_side and pid > wm_in and pid %% 2 == 0 and pid <= 2147483647 and self._closed_streams._size_limit >= 1, (pid in self._closed_streams) and self._closed_streams[pid] == StreamClosedBy.SEND_RST_STREAM and self.highest_inbound_stream_id == pid)' % REFUSED, ['C20', 'C09']),
+        ('refusal-registers-no-stream', 'implies(%s, all(k in old(self.streams) for k in self.streams))' % REFUSED, ['C20', 'C27']),
         ('accepted-on-client-initiated-parent', 'implies(%s, exists and sid %% 2 == 1 and kp == K_OK)' % ACCEPTED, ['C22', 'C06']),
         ('accepted-event', 'implies(%s, len(result[1]) == 1 and class_name(result[1][0]) == "PushedStreamReceived" and result[1][0].parent_stream_id == sid and result[1][0].pushed_stream_id == pid)' % ACCEPTED, ['C22', 'C07']),
         ('promised-id-rules', 'implies(%s, pid > wm_in and pid %% 2 == 0 and self.highest_inbound_stream_id == pid)' % ACCEPTED, ['C09', 'C22']),
